@@ -780,8 +780,19 @@ impl<'a> Interp<'a> {
                             let layout: Vec<SigId> = ans.iter().map(|(s, _)| *s).collect();
                             if layout != self.first_layout {
                                 self.probe(Probe::LayoutDeviation);
-                                self.steps
-                                    .push(mk(RefItem::RuntimeErr(ErrClass::LayoutDeviation), &env));
+                                let mut step =
+                                    mk(RefItem::RuntimeErr(ErrClass::LayoutDeviation), &env);
+                                if self.inp.continue_after_error {
+                                    // the call was an output-reading call and its answer was
+                                    // received: by name, these are now the latest values; the
+                                    // row itself is an error item, the run goes on
+                                    self.set_outputs(&ans);
+                                    step.continues = true;
+                                    self.steps.push(step);
+                                    sub += 1;
+                                    continue;
+                                }
+                                self.steps.push(step);
                                 return Err(Stop::Err(ErrClass::LayoutDeviation));
                             }
                             let before = self.outputs.clone();
